@@ -139,8 +139,18 @@ def decodeUtf8 : Bytes → Option Str
       | _ => none
     else none
 
+def encodeChar (c : Char) : Bytes :=
+  let n := c.toNat
+  if n < 0x80 then [UInt8.ofNat n]
+  else if n < 0x800 then [UInt8.ofNat (0xC0 + n / 64), UInt8.ofNat (0x80 + n % 64)]
+  else if n < 0x10000 then
+    [UInt8.ofNat (0xE0 + n / 4096), UInt8.ofNat (0x80 + n / 64 % 64), UInt8.ofNat (0x80 + n % 64)]
+  else
+    [UInt8.ofNat (0xF0 + n / 262144), UInt8.ofNat (0x80 + n / 4096 % 64), UInt8.ofNat (0x80 + n / 64 % 64),
+     UInt8.ofNat (0x80 + n % 64)]
+
 /-- `s.encode("utf-8")` -/
-def encodeUtf8 (s : Str) : Bytes := (String.ofList s).toUTF8.toList
+def encodeUtf8 (s : Str) : Bytes := s.flatMap encodeChar
 
 def isAscii (s : Str) : Bool := s.all (fun c => c.toNat < 128)
 
@@ -165,6 +175,9 @@ def dictGetTruthy (d : Dict) (k : Str) : Option Str :=
   | none => none
 
 /-- `sep.join(parts)` -/
-def join (sep : Str) (parts : List Str) : Str := List.intercalate sep parts
+def join (sep : Str) : List Str → Str
+  | [] => []
+  | [x] => x
+  | x :: y :: rest => x ++ sep ++ join sep (y :: rest)
 
 end WS.PyH2
